@@ -97,16 +97,24 @@ from nobodd.server import BootServer
 from nobodd.config import Board
 images = %(images)r
 boards = {0x100 + i: Board(0x100 + i, Path(p), 1, None) for i, p in enumerate(images)}
+# two more boards served from the FIRST image (same file, same partition): boards may share an image
+boards[0x200] = Board(0x200, Path(images[0]), 1, None)
+boards[0x201] = Board(0x201, Path(images[0]), 1, None)
+fds_before_server = fds()
 srv = BootServer(('127.0.0.1', 0), boards)
 th = threading.Thread(target=srv.serve_forever, kwargs={'poll_interval': 0.01}, daemon=True)
 th.start()
 time.sleep(0.1)
 # the images are opened (and mapped) on first use: touch every board once before taking the baseline
-for i in range(len(images)):
-    c = Client(srv.server_address, 1.0); c.rrq(('%%x/config.txt' %% (0x100 + i)).encode(), b'octet', []); c.run(); c.close()
+for serial in sorted(boards):
+    c = Client(srv.server_address, 1.0); c.rrq(('%%x/config.txt' %% serial).encode(), b'octet', []); c.run(); c.close()
+# one serial in many spellings (leading zeros, upper case, 0x prefix, underscores): still ONE board, one opened volume
+spellings = ['%%x' %% 0x100, '%%X' %% 0x100, '0x%%x' %% 0x100, '0X%%X' %% 0x100, '1_00', ' 100', '+100'] + ['0' * k + '100' for k in range(1, 60)]
+for sp in spellings:
+    c = Client(srv.server_address, 1.0); c.rrq((sp + '/no such file').encode(), b'octet', []); c.recv(); c.close()
 wait_until(lambda: len(srv.subs._alive) == 0, 5.0)
 base = dict(threads=threading.active_count(), fds=fds(), alive=len(srv.subs._alive))
-res = {'base': base, 'steps': []}
+res = {'base': base, 'steps': [], 'volumes_open': len(srv.images), 'boards': len(boards), 'spellings': len(spellings)}
 def snap(label):
     ok = wait_until(lambda: threading.active_count() <= base['threads'] and len(srv.subs._alive) == 0 and fds() <= base['fds'], 8.0)
     gc.collect()
@@ -120,9 +128,16 @@ for i in range(len(images)):
     for name in %(names)r:
         c = Client(srv.server_address, 1.0); c.rrq(('%%x/%%s' %% (0x100 + i, name)).encode(), b'octet', [(b'utimeout', b'10000'), (b'blksize', b'64')]); c.step(); c.close()
 snap('abandoned transfers from images')
-srv.shutdown(); srv.server_close()
+srv.shutdown()
+try:
+    srv.server_close()
+    res['close_error'] = None
+except BaseException as e:
+    res['close_error'] = repr(e)
 th.join(5)
+gc.collect()
 res['after_close'] = dict(alive=len(srv.subs._alive), reaper_alive=srv.subs.is_alive())
+res['fds_after_close'] = fds(); res['fds_before_server'] = fds_before_server
 print(json.dumps(res))
 '''
 
@@ -176,6 +191,14 @@ def boot_resources(ctx):
             ctx.violation('boot.real/resources-not-released', f'after {s["label"]}: threads {s["threads"]} (baseline {res["base"]["threads"]}), '
                           f'fds {s["fds"]} (baseline {res["base"]["fds"]}), registry {s["alive"]}, reaper alive {s["reaper_alive"]}', dict(result=res))
             return
+    if res.get('volumes_open', 0) > res.get('boards', 0):
+        ctx.violation('boot.real/volumes-per-board', f'{res["boards"]} boards are configured but {res["volumes_open"]} volumes are held open after one serial was requested in '
+                      f'{res["spellings"]} spellings (every spelling of a serial is the same board)', dict(result=res))
+        return
+    if res.get('close_error') or res.get('fds_after_close', 0) > res.get('fds_before_server', 0):
+        ctx.violation('boot.real/server-close', f'server_close() with boards sharing an image: raised {res.get("close_error")}; descriptors open afterwards '
+                      f'{res.get("fds_after_close")} (before the server existed: {res.get("fds_before_server")})', dict(result=res))
+        return
     ac = res.get('after_close', {})
     if ac.get('alive') or ac.get('reaper_alive'):
         ctx.violation('boot.real/server-close', f'server_close() left transfers running: {ac}', dict(result=res))
